@@ -382,6 +382,7 @@ func (dsc *dataStoreCommand) getKeySetExpiration(keyName string, expiration time
 		if strBytes != nil {
 			val = string(strBytes)
 			sk.expiresAt = expiration
+			dsc.setDirty()
 		} else {
 			exists = VALUE_WRONG_TYPE
 		}
